@@ -18,7 +18,7 @@ RES = ["thread", "async-thread", "main-thread"]
 # generator
 # ------------------------------------------------------------------------------------------------
 def gen_shape(rng, nmin=2, nmax=9, mix=None, pri="small", seq_rate=0.2, flags=True, reuse=True, mc_max=4,
-              kinds=True, max_deps=3, setup_rate=0.0, tag_rate=0.0, const_objects=0.06, nest_rate=0.0):
+              kinds=True, max_deps=3, setup_rate=0.0, tag_rate=0.0, const_objects=0.06, nest_rate=0.0, debug_rate=0.0):
     n = rng.randint(nmin, nmax)
     mix = mix or rng.choice(["thread", "async", "mixed", "mixed_main", "thread_main", "async_main"])
     fns = {}
@@ -111,6 +111,16 @@ def gen_shape(rng, nmin=2, nmax=9, mix=None, pri="small", seq_rate=0.2, flags=Tr
         "is_async": False,
         "mix": mix,
     }
+    if rng.random() < debug_rate:
+        # some sinks are debug nodes and the whole case runs with RUN_DEBUG_NODES on (whole-DAG calls only): every node runs,
+        # so every schedule clause applies to them as to any other node
+        g_ = site_graph_of(nodes)
+        cand = [i for i in range(n) if g_.out_degree(i) == 0 and sum(1 for m in nodes if m["fn"] == nodes[i]["fn"]) == 1
+                and not fns[nodes[i]["fn"]].get("setup")]
+        for i in cand:
+            if rng.random() < 0.6:
+                fns[nodes[i]["fn"]]["debug"] = True
+                spec["run_debug"] = True
     from tawazi.config import cfg as _tcfg
 
     # (with TAWAZI_IS_SEQUENTIAL=true the argument stubs tawazi creates for an inner DAG are sequential nodes themselves: the
@@ -127,6 +137,15 @@ def gen_shape(rng, nmin=2, nmax=9, mix=None, pri="small", seq_rate=0.2, flags=Tr
                 # node it feeds, so the priority clauses need no special case)
                 fs["priority"] = abs(fs.get("priority", 0))
     return spec
+
+
+def site_graph_of(nodes):
+    g = nx.DiGraph()
+    g.add_nodes_from(range(len(nodes)))
+    for i, nd in enumerate(nodes):
+        for j, _k in S.deps_of(nd):
+            g.add_edge(j, i)
+    return g
 
 
 def spec_shape(fns, nd):
@@ -196,9 +215,15 @@ def run_case(spec, op=None, args=None, faults=(), controlled=True, chooser=None,
     B.Settings.controlled = controlled
     B.Settings.chooser = chooser
     B.Settings.step_limit = 10 * len(d.exec_nodes) + 20
+    from tawazi.config import cfg as _tcfg
+
+    old_dbg = _tcfg.RUN_DEBUG_NODES
+    if spec.get("run_debug"):
+        _tcfg.RUN_DEBUG_NODES = True  # the shape has debug sinks: the whole case runs with them switched on
     try:
         res = probes.run_op(op.get("kind", "call"), lambda: call_dag(d, op, args))
     finally:
+        _tcfg.RUN_DEBUG_NODES = old_dbg
         B.Settings.controlled = False
         B.Settings.chooser = None
         B.Settings.step_limit = 0
